@@ -1,12 +1,14 @@
 import C4E.Drv.Minter
 import C4E.Drv.Distr
 import C4E.Drv.Vest
+import C4E.Drv.Sig
 open C4E
 
 structure World where
   minter : C4E.Drv.Minter.W := {}
   distr : C4E.Drv.Distr.W := {}
   vest : C4E.Drv.Vest.W := {}
+  sig : C4E.Drv.Sig.W := {}
   halted : Bool := false
 deriving Inhabited
 
@@ -21,6 +23,9 @@ def stepLine (w : World) (line : String) : World × String :=
     else if t.startsWith "m." then
       let (m, out) := C4E.Drv.Minter.step w.minter toks
       ({ w with minter := m, halted := out = "panic" && t = "m.block" }, out)
+    else if t.startsWith "s." then
+      let (v, out) := C4E.Drv.Sig.step w.sig toks
+      ({ w with sig := v }, out)
     else if t.startsWith "v." then
       let (v, out) := C4E.Drv.Vest.step w.vest toks
       ({ w with vest := v }, out)
